@@ -7,13 +7,15 @@ import sys
 from .. import gencorr, runner, valcases
 from ..common import REPO, VERIF
 
-MODULE = "D42.Props.C17"
-THEOREMS = ["gen_no_lookahead", "gen_log_independent", "genMany_no_lookahead", "gen_prefix_determined"]
-FILES = ["D42/Model/Gen.lean", "D42/Props/C17.lean"]
+MODULE = "D42.Props.C17All"
+THEOREMS = ["gen_no_lookahead", "gen_log_independent", "genMany_no_lookahead", "gen_prefix_determined",
+            "entropy_sources_listed", "k1_site_present"]
+FILES = ["D42/Model/Gen.lean", "D42/Props/C17.lean",
+         "D42/Gen/Entropy.lean", "D42/Props/C17Entropy.lean", "D42/Props/C17All.lean"]
 
 EVIDENCE = dict(
     level="proof",
-    checker_cmd="lake build D42.Props.C17 d42model && lake env lean <#print axioms audit>",
+    checker_cmd="lake build D42.Props.C17All d42model && lake env lean <#print axioms audit>",
     trusted=["Lean kernel; standard axioms", "CPython: the Mersenne Twister is a function of the seed and the request sequence",
              "the model generator is a function of (schemas, draw answers) by construction; what decides C17 is that the code is that "
              "function in every interpreter configuration: cross-process runs under several PYTHONHASHSEED values"],
@@ -70,6 +72,10 @@ def run(ctx):
 
 
 def _run(ctx):
+    from .. import extract_entropy
+    ok, msg = extract_entropy.run()
+    if not ok:
+        ctx.breakage("translation", "entropy-source extraction failed: " + msg)
     runner.prove(ctx, MODULE, THEOREMS, FILES)
     hashseeds = [0, 1, 2, 3] if ctx.quick() else [0, 1, 2, 3, 4, 5, 6, 7]
     n = ctx.n(60, 400)
